@@ -2480,8 +2480,18 @@ impl<'a, E: quiver_core::effects::Effect> Compiler<'a, E> {
             });
             last_prov = chain_prov.clone();
 
-            // Thread this chain's result into the next chain.
-            threaded = Some((chain_type, chain_prov));
+            // Thread this chain's result into the next chain. A chain that ends in a match
+            // yields the verdict (`Ok` / nil), not the matched value: its provenance (kept in
+            // `last_prov` for the narrowing of a branch condition) does not describe what the
+            // next chain receives — a match there must not narrow the matched value's source.
+            let yields_verdict = chain.match_pattern.is_some()
+                || matches!(chain.terms.last(), Some(ast::Term::Match(_)));
+            let threaded_prov = if yields_verdict {
+                Provenance::Unknown
+            } else {
+                chain_prov
+            };
+            threaded = Some((chain_type, threaded_prov));
 
             // If last_type is NIL, subsequent chains are unreachable - break early
             if let Some(last_type_id) = last_type
